@@ -233,7 +233,7 @@ func readString(s *source.Source, start int) (Token, error) {
 
 			// SourceCharacter
 			if code < 0x0020 && code != 0x0009 {
-				return Token{}, gqlerrors.NewSyntaxError(s, runePosition, fmt.Sprintf(`Invalid character within String: %v.`, printCharCode(code)))
+				return Token{}, gqlerrors.NewSyntaxError(s, position, fmt.Sprintf(`Invalid character within String: %v.`, printCharCode(code)))
 			}
 			position += n
 			runePosition++
@@ -268,7 +268,7 @@ func readString(s *source.Source, start int) (Token, error) {
 				case 'u':
 					// Check if there are at least 4 bytes available
 					if len(body) <= position+4 {
-						return Token{}, gqlerrors.NewSyntaxError(s, runePosition,
+						return Token{}, gqlerrors.NewSyntaxError(s, position,
 							fmt.Sprintf("Invalid character escape sequence: "+
 								"\\u%v", string(body[position+1:])))
 					}
@@ -279,7 +279,7 @@ func readString(s *source.Source, start int) (Token, error) {
 						rune(body[position+4]),
 					)
 					if charCode < 0 {
-						return Token{}, gqlerrors.NewSyntaxError(s, runePosition,
+						return Token{}, gqlerrors.NewSyntaxError(s, position,
 							fmt.Sprintf("Invalid character escape sequence: "+
 								"\\u%v", string(body[position+1:position+5])))
 					}
@@ -288,7 +288,7 @@ func readString(s *source.Source, start int) (Token, error) {
 					runePosition += 4
 					break
 				default:
-					return Token{}, gqlerrors.NewSyntaxError(s, runePosition,
+					return Token{}, gqlerrors.NewSyntaxError(s, position,
 						fmt.Sprintf(`Invalid character escape sequence: \\%c.`, code))
 				}
 				position += n
@@ -301,7 +301,7 @@ func readString(s *source.Source, start int) (Token, error) {
 		}
 	}
 	if code != '"' { // quote (")
-		return Token{}, gqlerrors.NewSyntaxError(s, runePosition, "Unterminated string.")
+		return Token{}, gqlerrors.NewSyntaxError(s, position, "Unterminated string.")
 	}
 	stringContent := body[chunkStart:position]
 	valueBuffer.Write(stringContent)
@@ -344,7 +344,7 @@ func readBlockString(s *source.Source, start int) (Token, error) {
 			code != 0x0009 &&
 			code != 0x000a &&
 			code != 0x000d {
-			return Token{}, gqlerrors.NewSyntaxError(s, runePosition, fmt.Sprintf(`Invalid character within String: %v.`, printCharCode(code)))
+			return Token{}, gqlerrors.NewSyntaxError(s, position, fmt.Sprintf(`Invalid character within String: %v.`, printCharCode(code)))
 		}
 
 		// Escape Triple-Quote (\""")
@@ -368,7 +368,7 @@ func readBlockString(s *source.Source, start int) (Token, error) {
 		runePosition++
 	}
 
-	return Token{}, gqlerrors.NewSyntaxError(s, runePosition, "Unterminated string.")
+	return Token{}, gqlerrors.NewSyntaxError(s, position, "Unterminated string.")
 }
 
 var splitLinesRegex = regexp.MustCompile("\r\n|[\n\r]")
@@ -498,7 +498,7 @@ func readToken(s *source.Source, fromPosition int) (Token, error) {
 
 	// SourceCharacter
 	if code < 0x0020 && code != 0x0009 && code != 0x000A && code != 0x000D {
-		return Token{}, gqlerrors.NewSyntaxError(s, runePosition, fmt.Sprintf(`Invalid character %v`, printCharCode(code)))
+		return Token{}, gqlerrors.NewSyntaxError(s, position, fmt.Sprintf(`Invalid character %v`, printCharCode(code)))
 	}
 
 	switch code {
@@ -580,7 +580,7 @@ func readToken(s *source.Source, fromPosition int) (Token, error) {
 		return token, err
 	}
 	description := fmt.Sprintf("Unexpected character %v.", printCharCode(code))
-	return Token{}, gqlerrors.NewSyntaxError(s, runePosition, description)
+	return Token{}, gqlerrors.NewSyntaxError(s, position, description)
 }
 
 // Gets the rune from the byte array at given byte position and it's width in bytes
